@@ -5,6 +5,7 @@ import (
 	"fmt"
 	"math/rand/v2"
 	"sort"
+	"strings"
 	"testing"
 
 	"gonum.org/v1/gonum/graph"
@@ -122,6 +123,10 @@ func (neverDone) Done() <-chan struct{} { return nil }
 func (neverDone) Err() error            { return nil }
 
 func checkCol(c colCase) *vk.Failure {
+	return withIndet(c.G, func(g G) *vk.Failure { c2 := c; c2.G = g; return checkCol1(c2) })
+}
+
+func checkCol1(c colCase) *vk.Failure {
 	c.Dir = false
 	m := model(c.G)
 	n := m.n
@@ -131,6 +136,7 @@ func checkCol(c colCase) *vk.Failure {
 	}
 	var partial map[int64]int
 	valid := true
+	negative := false // some pre-assigned colour is negative (not excluded by the documentation)
 	if c.Partial != nil && n > 0 {
 		partial = map[int64]int{}
 		byIdx := map[int]int{}
@@ -138,7 +144,7 @@ func checkCol(c colCase) *vk.Failure {
 			v := ((p[0] % n) + n) % n
 			col := p[1]
 			if col < 0 {
-				col = -col
+				negative = true
 			}
 			byIdx[v] = col
 			partial[m.id[v]] = col
@@ -161,6 +167,8 @@ func checkCol(c colCase) *vk.Failure {
 		vk.Class("col/partial=nil")
 	case len(partial) == 0:
 		vk.Class("col/partial=empty")
+	case valid && negative:
+		vk.Class("col/partial=proper-with-negative-colour")
 	case valid:
 		vk.Class("col/partial=proper")
 	default:
@@ -219,15 +227,15 @@ func checkCol(c colCase) *vk.Failure {
 			}
 			continue
 		}
-		if f := checkColoring(h.name+"-partial", m, r, partial, -1); f != nil {
-			return f
+		if negative && r.err == coloring.ErrInvalidPartialColoring {
+			continue // rejecting a negative colour as inadmissible is a documented outcome
 		}
-	}
-
-	// RecursiveLargestFirst
-	{
-		k, cs := coloring.RecursiveLargestFirst(g)
-		if f := checkColoring("rlf", m, colResult{k, cs, nil}, nil, maxDeg); f != nil {
+		if f := checkColoring(h.name+"-partial", m, r, partial, -1); f != nil {
+			if negative && strings.HasSuffix(f.Key, "-partial-k") {
+				// Specific key: a proper partial colouring with a negative colour is
+				// accepted but k is not the number of colours of the result.
+				return vk.Failf("partial-negative-colour-k", "%s with partial colouring %v (a negative colour) returns nil error and %s", h.name, partial, f.Msg)
+			}
 			return f
 		}
 	}
@@ -269,6 +277,14 @@ func checkCol(c colCase) *vk.Failure {
 			}
 		}
 	}
+	// RecursiveLargestFirst (last: see withIndet)
+	{
+		k, cs := coloring.RecursiveLargestFirst(g)
+		if f := checkColoring("rlf", m, colResult{k, cs, nil}, nil, maxDeg); f != nil {
+			return f
+		}
+	}
+
 	return nil
 }
 
@@ -315,9 +331,13 @@ func drawPartial(t *rapid.T, g G) [][2]int {
 	}
 	k := rapid.IntRange(0, min(g.N, 8)).Draw(t, "pn")
 	hi := rapid.IntRange(1, 6).Draw(t, "phi")
+	lo := 0
+	if rapid.IntRange(0, 4).Draw(t, "pneg") == 0 {
+		lo = -2 // colours are ints; the documentation does not exclude negative ones
+	}
 	p := [][2]int{}
 	for i := 0; i < k; i++ {
-		p = append(p, [2]int{rapid.IntRange(0, g.N-1).Draw(t, "pv"), rapid.IntRange(0, hi).Draw(t, "pc")})
+		p = append(p, [2]int{rapid.IntRange(0, g.N-1).Draw(t, "pv"), rapid.IntRange(lo, hi).Draw(t, "pc")})
 	}
 	return p
 }
@@ -340,9 +360,9 @@ func TestColoring(t *testing.T) {
 	vk.Run(t, "coloring", vk.Opts{Quick: 6000, Thorough: 120000, NoCrumb: true}, func(t *rapid.T) colCase {
 		var g G
 		if rapid.IntRange(0, 3).Draw(t, "szcls") > 0 {
-			g = drawG(t, false, 10, undClasses, []int{contOrdered, contSimple})
+			g = drawG(t, false, 10, undClasses, []int{contOrdered, contSimple, contIndet})
 		} else {
-			g = drawG(t, false, 40, undClasses, []int{contOrdered, contSimple})
+			g = drawG(t, false, 40, undClasses, []int{contOrdered, contSimple, contIndet})
 		}
 		return colCase{G: g, Partial: drawPartial(t, g),
 			Seed: [2]uint64{rapid.Uint64().Draw(t, "s0"), rapid.Uint64().Draw(t, "s1")},
